@@ -25,6 +25,7 @@ package helper
 func Count[T Number, O any](from T, other <-chan O) <-chan T {
 	c := make(chan T)
 
+	VerifStage("Count", 0, []any{other}, []any{c})
 	go func() {
 		defer close(c)
 
